@@ -23,6 +23,8 @@ def check(ctx):
     from . import c12, c13
     ctx.sub(c12.clock_range_rule, 'C14.S5')
     ctx.sub(c13.schedules)          # "runs at exactly those scheduled instants": each instant is a clock event of the same range, else construction never runs
+    from . import c18
+    ctx.sub(c18.shared_state)       # what is recorded must not hang on the console switch, nor on state that outlives the session
 
 
 def s1_loop_table(ctx):
